@@ -17,6 +17,7 @@ EXPLANATION = (
     "the same substitution and rebuilds the term from the unified arguments; U4 \\=/2 is the exact complement of =/2 (same unify_value call, same "
     "handler, success <-> failure swapped) and both are registered with the matching wrapper; U5 OccursCheck is a GroundingError (a ProbLog error), "
     "UnifyError is only a control signal. Most-general-ness and variable renaming across contexts are not decided."
+    " Added after seed round 6: U7 unify_call_return dereferences answer bindings through the caller-side links no later than the renaming pass."
 )
 TECHNIQUE = "static analysis: path-wise decision-table extraction over unify_value/unify_value_dc, sibling complement rule"
 LEVEL_TEXT = EXPLANATION
